@@ -172,9 +172,11 @@ RAW = {}   # id(ctx) -> raw implementation output lines (with the tree after a f
 
 
 def strip_failed(line):
-    """The model does not claim a particular partial state after an I/O failure: compare the verdict only."""
+    """The model does not claim a particular partial state after an I/O failure: compare the verdict only.
+    A crash or hang of the implementation where the model returns an error is told apart by the oracle
+    (every 'panic'/'hang' is reported there), not by the correspondence."""
     segs = line.split(" | ")
-    return " | ".join("failed" if s.startswith("failed ") else s for s in segs)
+    return " | ".join("failed" if (s.startswith("failed ") or s in ("panic", "hang")) else s for s in segs)
 
 
 def go_runner(ctx, lines):
